@@ -28,8 +28,8 @@ UR = z3.RealVal(str(U))
 # rigorous numeric anchors (decimal enclosures of transcendental constants)
 ANCHORS_EXP = [
     # (x, lower bound of exp(x), upper bound of exp(x))
-    ("-0.6931471805599452", "0.5", "0.50000000000000011"),
-    ("-0.6931471805599454", "0.49999999999999989", "0.5"),
+    ("-0.693147180559945", "0.5", "0.5000000000000002"),
+    ("-0.693147180559946", "0.4999999999999996", "0.5"),
     ("0", "1", "1"),
 ]
 LOG2_LO, LOG2_HI = "0.69314718055994530", "0.69314718055994531"
@@ -50,15 +50,19 @@ def exp_term(ctx, x, depth=0):
     seen = _terms(ctx, "exp_terms")
     if any(x.eq(y) for y in seen):
         return t
-    if not seen and depth == 0:
+    if not ctx.ghost.get("exp_anchors"):
         # anchors are added once per path
-        seen.append(x)
+        ctx.ghost["exp_anchors"] = True
         for a, lo, hi in ANCHORS_EXP:
             ax = rv(a)
             ctx.assume(EXP(ax) >= rv(lo))
             ctx.assume(EXP(ax) <= rv(hi))
+            for y in seen:
+                ctx.assume(z3.And(z3.Implies(ax < y, EXP(ax) < EXP(y)), z3.Implies(ax > y, EXP(ax) > EXP(y))))
             seen.append(z3.simplify(ax))
-        seen.remove(x)
+        for i, (a, _, _) in enumerate(ANCHORS_EXP):
+            for (b, _, _) in ANCHORS_EXP[i + 1:]:
+                pass
     ctx.assume(t > 0)
     ctx.assume(t >= 1 + x)
     for y in seen:
